@@ -13,7 +13,8 @@
 (*   "timeout"            no return within the bound (reproduced)          *)
 (*                                                                         *)
 (*   Returns  == every started analysis returned                           *)
-(*   Covered  == every REQUIRED analysis has an outcome for the program    *)
+(*   Covered  == every analysis REQUIRED for the program (field `req`)     *)
+(*               has an outcome                                            *)
 (*               (a harness that silently skipped an analysis is not a     *)
 (*               pass: reported as "missing", which the check turns into   *)
 (*               exit 2)                                                   *)
@@ -23,8 +24,8 @@
 (***************************************************************************)
 EXTENDS Naturals, Sequences, FiniteSets, TLC, Json, SequencesExt
 
-Recs     == ndJsonDeserialize("outcomes.ndjson")      \* [prog, outs: <<[a, o]>>]
-Required == LET r == ndJsonDeserialize("required.ndjson")[1].analyses IN {r[j] : j \in 1 .. Len(r)}
+Recs        == ndJsonDeserialize("outcomes.ndjson")   \* [prog, req: <<analysis>>, outs: <<[a, o]>>]
+Required(q) == {Recs[q].req[j] : j \in 1 .. Len(Recs[q].req)}
 
 Returned(o) == o \in {"result", "error"}
 Outcomes == {"result", "error", "panic", "fatal", "timeout"}
@@ -38,12 +39,12 @@ Outs(q)    == {Recs[q].outs[j] : j \in 1 .. Len(Recs[q].outs)}
 Started(q) == {x.a : x \in Outs(q)}
 
 Returns(q) == \A x \in Outs(q) : Returned(x.o)
-Covered(q) == Required \subseteq Started(q)
+Covered(q) == Required(q) \subseteq Started(q)
 
 Fail(q, a, o) == [p |-> q, prog |-> Recs[q].prog, a |-> a, o |-> o]
 
 Fails(q) == {Fail(q, x.a, x.o) : x \in {y \in Outs(q) : ~Returned(y.o)}}
-            \cup {Fail(q, a, "missing") : a \in Required \ Started(q)}
+            \cup {Fail(q, a, "missing") : a \in Required(q) \ Started(q)}
 
 TypeOK == \A x \in Outs(p) : x.o \in Outcomes
 
